@@ -109,6 +109,19 @@ func c01Case(w *fw.W, idx int, r *fw.Rand) {
 	if idx < len(c01Deterministic) {
 		call = "Run"
 	}
+	if idx >= len(c01Deterministic) && r.P(1, 25) {
+		// stale program: a long earlier program whose instructions refer to its source text
+		// (default-sided dice, annotations, function/computed bodies, templates), then a short
+		// input that does not parse, driven by a host that ignores Parse's verdict
+		pad := strings.Repeat(r.Pick([]string{"1 + ", "x = 5; ", "'pad' + 'x'; ", "力量 = 50; "}), r.Range(1, 6))
+		prior = pad + r.Pick([]string{"d", "2d + 1", "d优势", "3d劣势 + d", "func g() { d }; g()", "&c = 2d; c", "`{d} and {2d}`", "[d, 2d][1]", "d6 + d", "1 ? d : 2d", "i = 0; while i < 2 { i = i + d1 }; d"})
+		src = r.Pick([]string{"", "(", ")", "1 +", "^st", "'", "`{", "[1,", "x =", "d +", "func g(", "// #EnableDice wod true\n", " ", "\n", "1 ? "})
+		call = r.Pick([]string{"Parse;RunAfterParsed-regardless", "Parse;RunAfterParsed-regardless", "RunAfterParsed-only", "Parse+RunAfterParsed×2"})
+		fam = "stale-program"
+		if cfg.DefSide == "1 +" {
+			cfg.DefSide = "20"
+		}
+	}
 	desc := fmt.Sprintf("cfg=%s prior=%q call=%s src=%q", cfg, prior, call, src)
 	w.Begin(idx, desc)
 
